@@ -23,7 +23,11 @@ pub struct PathRequireMode {
         default = "get_default_module_folder_name"
     )]
     module_folder_name: String,
-    #[serde(default, skip_serializing_if = "HashMap::is_empty")]
+    #[serde(
+        default,
+        skip_serializing_if = "HashMap::is_empty",
+        deserialize_with = "crate::utils::deserialize_unique_map"
+    )]
     sources: HashMap<String, PathBuf>,
     #[serde(default = "default_use_luau_configuration")]
     use_luau_configuration: bool,
